@@ -85,7 +85,8 @@ def c03_case(draw, tier="quick"):
         if t.get("origin_op") and draw(st.integers(0, 9)) < 7:
             ep = t["origin_op"]  # the operation the (mutated) description was generated for
         return {"layer": "L1", "string": t["string"], "entry": ep, "seed": draw(st.integers(0, 10**6)), "nsizes": draw(st.integers(0, 2))}
-    base = draw(G.call_case(quick=(tier == "quick"), backends=[None, "numpy", "numpy.numpylike"]))
+    flags = {"force_fam": True} if draw(st.integers(0, 3)) == 0 else None  # more ellipses among the valid calls
+    base = draw(G.call_case(quick=(tier == "quick"), backends=[None, "numpy", "numpy.numpylike"], flags=flags))
     return {"layer": "L2", "base": base, "edit": draw(st.sampled_from(EDITS)), "rnd": [draw(st.integers(0, 10**6)) for _ in range(3)]}
 
 
@@ -391,13 +392,57 @@ def derive_l2(rc, arrays):
         desc = X.p_desc(ins, outs)
         return res((E.SemanticError,), desc=desc)
     if edit == "brackets_added":
-        if fam not in ("id", "elementwise"):
+        # brackets where the operation has no use for them: around an item of an input of id / scalar operations, or around an
+        # item of the output of id / scalar operations / reductions / dot; the item may be or contain an ellipsis
+        if fam not in ("id", "elementwise", "reduce", "dot"):
             return None
-        cands = [(i, j) for i, e in enumerate(ins) for j, it in enumerate(e) if it[0] in ("ax", "flat") and not (it[0] == "flat" and not it[1])]
+
+        def has_br(it):
+            return R.contains_br(it)
+
+        cands = []
+        if fam in ("id", "elementwise"):
+            cands += [("in", i, j) for i, e in enumerate(ins) for j, it in enumerate(e) if it[0] in ("ax", "flat", "ell") and not (it[0] == "flat" and not it[1]) and not has_br(it)]
+        cands += [("out", i, j) for i, e in enumerate(outs) for j, it in enumerate(e) if it[0] in ("ax", "flat", "ell") and not (it[0] == "flat" and not it[1]) and not has_br(it)]
+        ell_cands = [c for c in cands if (ins if c[0] == "in" else outs)[c[1]][c[2]][0] == "ell"]
+        if ell_cands and rnd[1] % 2 == 0:
+            cands = ell_cands
         if not cands:
             return None
-        i, j = cands[rnd[0] % len(cands)]
-        ins[i][j] = ["br", [ins[i][j]]]
+        def names_of(it):
+            return {l[1] for l, _ in X.walk_leaves(X.expand([it])) if l[0] == "ax"}
+
+        def wrap_item(it):
+            if it[0] == "ell" and rnd[2] % 2 == 0 and not (len(it) > 4 and it[4]):
+                # "[b]..." : the bracket inside the ellipsis
+                return ["ell", [["br", it[1]]], it[2], [["br", [x]] for x in it[3]], False]
+            return ["br", [it]]
+
+        # bracket every occurrence of the chosen item's axes (consistent bracket usage, so that the description passes the
+        # syntactic checks and the question is only whether brackets are allowed there); candidates whose axes also occur
+        # mixed with other axes inside one item are tried later in the cyclic order
+        for shift in range(len(cands)):
+            side, i, j = cands[(rnd[0] + shift) % len(cands)]
+            names = names_of((ins if side == "in" else outs)[i][j])
+            ins2, outs2 = copy.deepcopy(ins), copy.deepcopy(outs)
+            ok = True
+            for e in ins2 + outs2:
+                for jj, it2 in enumerate(e):
+                    n2 = names_of(it2)
+                    if n2 & names:
+                        if not n2 <= names or R.contains_br(it2) or it2[0] == "cat":
+                            ok = False
+                        else:
+                            e[jj] = wrap_item(it2)
+            if not names:
+                ins2, outs2 = copy.deepcopy(ins), copy.deepcopy(outs)
+                (ins2 if side == "in" else outs2)[i][j] = wrap_item((ins2 if side == "in" else outs2)[i][j])
+                ok = True
+            if ok:
+                ins, outs = ins2, outs2
+                break
+        else:
+            return None
         desc = X.p_desc(ins, outs)
         return res(ANY, desc=desc)
     if edit == "brackets_removed":
